@@ -1,0 +1,161 @@
+//go:build verif
+
+// C15 (return-routability part): contracts for package rrc (comment-only; read by /verif/vc).
+package rrc
+
+// RFC 9853 / RFC 9146 6: before a candidate address has answered a path challenge the endpoint
+// sends it at most three times the bytes it received from it. In exact unsigned 64-bit
+// arithmetic the budget is sat3(received) = min(3*received, 2^64-1); 6148914691236517205 is
+// (2^64-1)/3, above it the product saturates and the bound is vacuous.
+//
+// KEY() is the map key the function computed for its address argument (the result of the last
+// pathKey call; net.Addr methods are opaque). INV(m) is the manager invariant: every stored
+// path is a real object within its amplification budget.
+
+//@ define BUDGET(p) (p.receivedBytes <= 6148914691236517205 ==> p.sentBytes <= 3*p.receivedBytes)
+//@ define KEY() retAs("pathKey", 0, addr.String())
+//@ define INV(m) forallKey(m.paths, func(k string) bool { return allocated(m.paths[k]) && BUDGET(m.paths[k]) })
+//@ define SAME() retBool("sameAddress", 0)
+
+//@ func Manager.Reserve
+//@ watch sameAddress pathKey time.Time.Before
+//@ requires inv: INV(m)
+//@ ensures inv: INV(m)
+//@ ensures active-unlimited: SAME() ==> result == nil
+//@ ensures budget: result == nil && !SAME() ==> m.paths[KEY()] != nil && BUDGET(m.paths[KEY()])
+//@ ensures charged: result == nil && !SAME() ==> m.paths[KEY()].sentBytes == old(m.paths[KEY()].sentBytes) + uint64(wireBytes)
+//@ ensures no-wrap: result == nil && !SAME() ==> m.paths[KEY()].sentBytes >= old(m.paths[KEY()].sentBytes)
+//@ ensures within-three-times: result == nil && !SAME() && m.paths[KEY()].receivedBytes <= 6148914691236517205
+//@    ==> old(m.paths[KEY()].sentBytes) + uint64(wireBytes) <= 3*m.paths[KEY()].receivedBytes
+//@ ensures negative-rejected-while-budget-below-2p63: wireBytes < 0 && !SAME() && old(m.paths[KEY()]) != nil
+//@    && old(m.paths[KEY()].receivedBytes) <= 3074457345618258602 ==> result != nil
+//@ ensures unknown-path-rejected: !SAME() && old(m.paths[KEY()]) == nil ==> result != nil
+//@ ensures expired-rejected: called("time.Time.Before") && !retBool("time.Time.Before", 0) ==> result != nil
+//@ ensures rejected-unchanged: result != nil || SAME() ==> forallKey(m.paths, func(k string) bool {
+//@    return m.paths[k].sentBytes == old(m.paths[k].sentBytes) && m.paths[k].receivedBytes == old(m.paths[k].receivedBytes) })
+//@ ensures received-unchanged: forallKey(m.paths, func(k string) bool { return m.paths[k].receivedBytes == old(m.paths[k].receivedBytes) })
+//@ ensures others-unchanged: forallKey(m.paths, func(k string) bool {
+//@    return m.paths[k] != m.paths[KEY()] ==> m.paths[k].sentBytes == old(m.paths[k].sentBytes) })
+//@ ensures map-unchanged: sameRef(m.paths, old(m.paths)) && len(m.paths) == old(len(m.paths))
+//@    && forallKey(m.paths, func(k string) bool { return m.paths[k] == old(m.paths[k]) })
+//@ ensures unlocked: !held("Manager.mu")
+// FINDING (kept last so that it is not assumed by other clauses): a negative wireBytes is converted to
+// uint64 (>= 2^63) and is accepted whenever limit-sentBytes >= that value, i.e. once 3*receivedBytes
+// reaches 2^63 (receivedBytes > 3074457345618258602). Replayed: receivedBytes = (2^64-1)/3+1,
+// sentBytes = 0, Reserve(addr, active, -1) returns nil and sets sentBytes = 2^64-1.
+//@ ensures negative-rejected: wireBytes < 0 && !SAME() ==> result != nil
+//@ end
+
+// PL() is the path object returned by pathLocked for the address argument; KEPT(k) says that key k
+// already named the same path object on entry (so old() of its fields is meaningful).
+
+//@ define PL() retAs("Manager.pathLocked", 0, m.paths[""])
+//@ define KEPT(k) (old(hasKey(m.paths, k)) && m.paths[k] == old(m.paths[k]))
+
+//@ func Manager.pathLocked
+//@ watch pathKey time.Time.Before
+//@ requires inv: INV(m)
+//@ ensures inv: INV(m)
+//@ ensures non-nil: result != nil
+//@ ensures map-made: m.paths != nil
+//@ ensures installed: hasKey(m.paths, KEY()) && m.paths[KEY()] == result
+//@ ensures fresh-or-kept: (fresh(result) && result.sentBytes == 0 && result.receivedBytes == 0 && !result.challengePending)
+//@    || (old(allocated(result)) && result.sentBytes == old(result.sentBytes) && result.receivedBytes == old(result.receivedBytes)
+//@        && result.challengePending == old(result.challengePending) && result.cookie == old(result.cookie))
+//@ ensures kept-was-stored: old(allocated(result)) ==> old(hasKey(m.paths, KEY()) && m.paths[KEY()] == result)
+//@ ensures budget-established: BUDGET(result)
+//@ ensures others-kept: forallKey(m.paths, func(k string) bool { return KEPT(k) || m.paths[k] == result })
+//@ ensures only-one-new: forallKey(m.paths, func(k string) bool { return k != KEY() ==> KEPT(k) })
+//@ ensures counters-kept: forallKey(m.paths, func(k string) bool { return KEPT(k) ==>
+//@    m.paths[k].sentBytes == old(m.paths[k].sentBytes) && m.paths[k].receivedBytes == old(m.paths[k].receivedBytes)
+//@    && m.paths[k].challengePending == old(m.paths[k].challengePending) && m.paths[k].cookie == old(m.paths[k].cookie) })
+//@ end
+
+
+//@ func Manager.recordReceived
+//@ watch sameAddress Manager.pathLocked Manager.touchLocked
+//@ requires inv: INV(m)
+//@ ensures inv: INV(m)
+//@ ensures ignored: wireBytes <= 0 || SAME() ==> !called("Manager.pathLocked") && sameRef(m.paths, old(m.paths))
+//@ ensures counted: wireBytes > 0 && !SAME() ==> called("Manager.pathLocked") && PL() != nil && PL().receivedBytes >= uint64(wireBytes)
+//@ ensures monotone: forallKey(m.paths, func(k string) bool { return KEPT(k) ==> m.paths[k].receivedBytes >= old(m.paths[k].receivedBytes) })
+//@ ensures saturating: wireBytes > 0 && !SAME() ==> forallKey(m.paths, func(k string) bool { return KEPT(k) && m.paths[k] == PL() ==>
+//@    (old(m.paths[k].receivedBytes) <= 18446744073709551615 - uint64(wireBytes) ==> m.paths[k].receivedBytes == old(m.paths[k].receivedBytes) + uint64(wireBytes))
+//@    && (old(m.paths[k].receivedBytes) > 18446744073709551615 - uint64(wireBytes) ==> m.paths[k].receivedBytes == 18446744073709551615) })
+//@ ensures sent-unchanged: forallKey(m.paths, func(k string) bool { return KEPT(k) ==> m.paths[k].sentBytes == old(m.paths[k].sentBytes) })
+//@ ensures others-unchanged: forallKey(m.paths, func(k string) bool { return KEPT(k) && m.paths[k] != PL() ==> m.paths[k].receivedBytes == old(m.paths[k].receivedBytes) })
+//@ ensures unlocked: !held("Manager.mu")
+//@ end
+
+//@ func Manager.Start
+//@ watch sameAddress Manager.pathLocked rand.Read
+//@ requires inv: INV(m)
+//@ ensures inv: INV(m)
+//@ ensures disabled: !enabled ==> !result1 && result2 == nil && !called("Manager.pathLocked")
+//@ ensures active-not-challenged: enabled && SAME() ==> !result1 && result2 == nil && !called("Manager.pathLocked")
+//@ ensures error-no-challenge: result2 != nil ==> !result1
+//@ ensures challenge-recorded: result1 ==> PL() != nil && PL().challengePending && PL().cookie == result0
+//@ ensures fresh-cookie: result1 ==> called("rand.Read") && retErr("rand.Read", 1) == nil
+//@ ensures one-challenge-at-a-time: result1 ==> forallKey(m.paths, func(k string) bool { return KEPT(k) && m.paths[k] == PL() ==> !old(m.paths[k].challengePending) })
+//@ ensures pending-kept: forallKey(m.paths, func(k string) bool { return KEPT(k) && old(m.paths[k].challengePending) ==> m.paths[k].challengePending })
+//@ ensures pending-cookie-kept: forallKey(m.paths, func(k string) bool { return KEPT(k) && old(m.paths[k].challengePending) ==>
+//@    forall(0, 8, func(i int) bool { return m.paths[k].cookie[i] == old(m.paths[k].cookie[i]) }) })
+//@ ensures counters-unchanged: forallKey(m.paths, func(k string) bool { return KEPT(k) ==>
+//@    m.paths[k].sentBytes == old(m.paths[k].sentBytes) && m.paths[k].receivedBytes == old(m.paths[k].receivedBytes) })
+//@ ensures unlocked: !held("Manager.mu")
+//@ end
+
+//@ func Manager.Cancel
+//@ watch Manager.touchLocked
+//@ requires inv: INV(m)
+//@ ensures inv: INV(m)
+//@ ensures never-starts: forallKey(m.paths, func(k string) bool { return m.paths[k].challengePending ==> old(m.paths[k].challengePending) })
+//@ ensures other-cookie-kept: forallKey(m.paths, func(k string) bool { return old(m.paths[k].cookie) != cookie ==> m.paths[k].challengePending == old(m.paths[k].challengePending) })
+//@ ensures cancelled: called("Manager.touchLocked") ==> !argAs("Manager.touchLocked", 2, m.paths[""]).challengePending && argAs("Manager.touchLocked", 2, m.paths[""]).cookie == cookie
+//@ ensures cookies-unchanged: forallKey(m.paths, func(k string) bool { return m.paths[k].cookie == old(m.paths[k].cookie) })
+//@ ensures counters-unchanged: forallKey(m.paths, func(k string) bool { return
+//@    m.paths[k].sentBytes == old(m.paths[k].sentBytes) && m.paths[k].receivedBytes == old(m.paths[k].receivedBytes) })
+//@ ensures map-unchanged: sameRef(m.paths, old(m.paths)) && len(m.paths) == old(len(m.paths))
+//@    && forallKey(m.paths, func(k string) bool { return m.paths[k] == old(m.paths[k]) })
+//@ ensures unlocked: !held("Manager.mu")
+//@ end
+
+//@ func Manager.HandleResponse
+//@ watch pathKey time.Time.Before
+//@ requires inv: INV(m)
+//@ ensures inv: INV(m)
+//@ ensures known-path: result ==> old(m.paths[KEY()]) != nil
+//@ ensures was-pending: result ==> old(m.paths[KEY()].challengePending)
+//@ ensures cookie-equal: result ==> old(m.paths[KEY()].cookie) == cookie
+//@ ensures timely: result ==> called("time.Time.Before") && retBool("time.Time.Before", 0)
+//@ ensures expiry-is-the-paths: result ==> argAs("time.Time.Before", 1, m.paths[""].expiresAt) == old(m.paths[KEY()].expiresAt)
+//@ ensures validated-clears-candidates: result ==> len(m.paths) == 0
+//@ ensures late-response-dropped: called("time.Time.Before") && !retBool("time.Time.Before", 0) ==> !result && !hasKey(m.paths, KEY())
+//@ ensures counters-unchanged: forallKey(m.paths, func(k string) bool { return m.paths[k] == old(m.paths[k]) &&
+//@    m.paths[k].sentBytes == old(m.paths[k].sentBytes) && m.paths[k].receivedBytes == old(m.paths[k].receivedBytes) })
+//@ ensures unlocked: !held("Manager.mu")
+//@ end
+
+//@ func Manager.WrapReplayMarker
+//@ ensures disabled-passthrough: !enabled ==> sameRef(result, marker)
+//@ ensures nil-passthrough: marker == nil ==> result == nil
+//@ end
+
+// The wrapped marker and the active-address getter are caller-supplied callbacks; they are assumed
+// not to touch the manager or the closure's private flag (no re-entrancy).
+//@ assume-pure freevar.marker
+//@ assume-pure freevar.activeAddress
+
+//@ func Manager.WrapReplayMarker$1
+//@ watch marker Manager.recordReceived activeAddress
+//@ requires captured: marker != nil && activeAddress != nil && m != nil
+//@ requires inv: INV(m)
+//@ ensures inv: INV(m)
+//@ ensures forwards-once: ncalls("marker") == 1
+//@ ensures returns-marker-result: result == retBool("marker", 0)
+//@ ensures counted-once: old(marked) ==> !called("Manager.recordReceived")
+//@ ensures counted-first: !old(marked) ==> ncalls("Manager.recordReceived") == 1
+//@ ensures marked-after: marked
+//@ ensures counts-wire-bytes: !old(marked) ==> argInt("Manager.recordReceived", 3) == wireBytes
+//@ ensures counts-after-marker: !old(marked) ==> calledBefore("marker", "Manager.recordReceived")
+//@ end
